@@ -42,7 +42,7 @@ def fixed  : Cfg := ⟨.fixed, .fixed, .fixed⟩
 
 /-- The variant the correspondence run compares the implementation with.  Flip a field to
     `.fixed` when (and only when) the corresponding patch is applied to the tree. -/
-def active : Cfg := { toolClose := .pinned, usageChunk := .pinned, mixedDelta := .pinned }
+def active : Cfg := { toolClose := .fixed, usageChunk := .fixed, mixedDelta := .fixed }
 
 /-! ### Input: what `processStreamLine` distinguishes after JSON parsing -/
 
